@@ -551,7 +551,7 @@ func RunC04DictTyped(ctx *core.Ctx) {
 				}
 				r := ctx.Rand("c04dicttyped/" + shape + "/" + j.t.name + "/" + j.path)
 				w.r = r
-				for rep := 0; rep < ctx.Scale(1, 3); rep++ {
+				for rep := 0; rep < ctx.Scale(1, 2); rep++ {
 					for _, n := range big {
 						for _, pattern := range []string{"late-new", "all-new", "mixed"} {
 							w.typedDictCase(j.t, j.path, pattern, c4TypedRows(j.t, r, c4TypedSeq(j.t.k, r, n, pattern)))
